@@ -371,7 +371,10 @@ def _from_c08(base, prefixes):
 from .C08 import Initialize as _C08Initialize, Enter as _C08Enter      # noqa: E402
 
 P = ("C01-",)
+# lookups *after* a block (and outside every scope) see what was there before it: the state variable is restored on every
+# way out of a scope, and inside the block the scope's own state is current
+_c01 = lambda n: n.startswith(("C01-", "C02-P0")) or "StateContext-variable-is-what-it-was" in n      # noqa: E731
 _DISP = [_from_c08(_C08Initialize, ("P1:returns-none",)),
          _from_c08(_C08Enter, ("P1:one-_initialize-per-disposable", "P1:result-is-the-in-order-concatenation"))]
 CONTRACTS = _DISP + [variant(Init, "C01", P), variant(Lookup, "C01", P), variant(Updated, "C01", P), Current(), CtxState(), UpdatedCtx(),
-             variant(AsyncScope, "C01", P), variant(SyncScope, "C01", P)]
+             variant(AsyncScope, "C01", _c01), variant(SyncScope, "C01", _c01)]
